@@ -78,4 +78,10 @@ META = {
   "note": "Trusts kit/script framing and kit/tok; timing of '+' relative to client writes is sampled at two points only.",
   "technique": "property-based testing (rapid) with scripted peer and independent tokenizer oracle",
  },
+ "C12": {
+  "text": "Model-based search: generated conformant server transcripts (pipelining, permuted answers, all outcome assignments, interleaved unilateral data, literal refusal) interpreted by a reference model and compared with what each command's Wait returns and with Client.State()/Mailbox(). Sampling, not proof.",
+  "design_ref": "DESIGN.md 3/C12",
+  "note": "Trusts the reference interpreter in harness/c12 and kit/script framing; state is observed right after Wait returns and after a NOOP barrier.",
+  "technique": "stateful property-based testing (rapid) against a reference interpreter of generated server transcripts",
+ },
 }
